@@ -26,11 +26,15 @@ def declared_once(text):
 def main(tier):
     rep = Report(PID, tier)
     c13.build_runtime()
-    progs = c01.programs(tier, random.Random(seed()), style=0)
+    progs = c01.programs(tier, random.Random(seed()), style=0) + c01.programs(tier, random.Random(seed()), style=1)
     jobs, plainA, plainB, samples = [], {}, {}, []
+    seen_src = set()
     stats = {'programs': 0, 'recompiled': 0, 'hash256_equal': 0, 'first_generation_not_compiling': 0}
     for i, t in enumerate(progs):
         src = '\n'.join(dict.fromkeys(t.decls)) + f'\ntype Root{i} = {t.ts};'
+        if src in seen_src:
+            continue
+        seen_src.add(src)
         try:
             pathsA, irsA, irdA = valcheck.compile_program(f'g1_{i}', src, f'Root{i}')
         except (valcheck.Unsupported, Inconclusive):
@@ -38,7 +42,7 @@ def main(tier):
             continue
         stats['programs'] += 1
         construct = c01.construct_of(src)
-        feats = sorted(valcheck.spec_features(t.spec, getattr(t, 'defs', {})) & {'index-sig', 'regex', 'map', 'set', 'date', 'bigint', 'typedarray', 'tuple-rest', 'allof', 'disc', 'consts', 'ref'})
+        feats = sorted(valcheck.spec_features(t.spec, c01.ALL_DEFS) & {'index-sig', 'regex', 'map', 'set', 'date', 'bigint', 'typedarray', 'tuple-rest', 'allof', 'disc', 'consts', 'ref'})
         d = describe(pathsA['plain'], f'Root{i}')
         if 'error' in d:
             rep.violation(f'c15:describe-throws:{construct}', f'describe() throws for `{src[-200:]}`: {d["error"]}', {'cmd': 'describe', 'source': src})
@@ -67,7 +71,7 @@ def main(tier):
         else:
             rep.violation('c15:hash256:' + c08.hash_role((irsA, irdA), (irsB, irdB), construct), f'hash256 of the recompiled description differs: `{src[-160:]}` described as `{text[-260:]}`',
                           {'cmd': 'hash', 'a': src, 'b': text})
-        job = valcheck.make_job(f'p{i}', t.spec, getattr(t, 'defs', {}), PID, tier, module=pathsA['inst'], parser=f'Root{i}', hostile=False)
+        job = valcheck.make_job(f'p{i}', t.spec, c01.ALL_DEFS, PID, tier, module=pathsA['inst'], parser=f'Root{i}', hostile=False)
         job['moduleB'] = pathsB['inst']
         job['parserB'] = root
         job['sources'] = [src, text]
